@@ -236,7 +236,8 @@ def run(rep):
                 proc_fns.add(fn)
             if fn not in reach:
                 continue
-            amb = c.startswith(AMBIENT_PREFIX) or any(x in c for x in AMBIENT_CONTAINS)
+            # library callees only: a crate function is judged by what it calls (`GroupBinding::address_space` is not `<*const T>::addr`)
+            amb = c not in mir.bodies and (c.startswith(AMBIENT_PREFIX) or any((x + '::') in c or (x + '<') in c or c.endswith(x) if x.startswith('::') else x in c for x in AMBIENT_CONTAINS))
             if amb:
                 rep.bad('C18.R2.ambient-input', f'ambient:{fn}:{c}', body.where(bb),
                         f'{c} is called in code reachable from {entries}: the output may then depend on the environment, '
@@ -304,11 +305,13 @@ def run(rep):
     # behind as a zombie process.  Pairing rule on the (helper-inlined) formatter functions: from the point where the Child exists, every
     # path to a normal return passes a wait call.  The None edge of `child.stdin.take()?` is infeasible when stdin was configured as piped.
     from engine_mir import inlined
-    from mirutil import chain_of
+    from mirutil import feasible_reach, chain_of
     spawners = sorted(fn for fn in mir.bodies if any(cname(t) == 'std::process::Command::spawn' for _, t in mir.bodies[fn].calls()))
     Fp = set()
     for fn in spawners:
         Fp |= {x for x in mir.callers_closure({fn}) if x in proc_fns or x == fn}
+    # .. and the process-handling helpers those functions call (`write_stdin(&mut child, ..)`, `formatted_stdout(output)`)
+    Fp |= {x for x in mir.reachable_fns(sorted(Fp)) if x in proc_fns}
     roots = [fn for fn in sorted(Fp) if not any(fn in g.get(o, ()) for o in Fp if o != fn)] or spawners
     n_spawn = 0
     for fn in roots:
@@ -348,7 +351,7 @@ def run(rep):
         returns = {b for b, blk in enumerate(B.blocks) if blk['term']['k'] == 'return'}
         leak = set()
         for s0 in starts:
-            r = B.reachable_from([s0], avoid=wait_blocks | infeasible)
+            r = feasible_reach(B, [s0], avoid=wait_blocks | infeasible)      # a helper's `?` residual correlates with the caller's `?` on its result
             leak |= (r & returns)
         rep.check(not leak, 'C18.R5.child-reaped', f'child-reaped:{fn}', B.where(sorted(leak)[0] if leak else sorted(starts)[0]),
                   'a path from the spawn of the formatter to a return passes no wait()/wait_with_output(): the child process is left behind (zombie) - state modified beyond '
